@@ -39,7 +39,11 @@ type replay struct {
 	Log  []string `json:"log,omitempty"`
 }
 
-func urlOf(i int) string { return fmt.Sprintf("p%d.com/v1/x", i) }
+// urlOf: hosts are private to a case, so nothing a previous case left in the engine's package-level bookkeeping
+// can stand in for (or against) this case's endpoints.
+var caseTag = "c0"
+
+func urlOf(i int) string { return fmt.Sprintf("p%d-%s.com/v1/x", i, caseTag) }
 
 func policies(set []int) *config.PoliciesData {
 	c := &sharedConfig.PoliciesConfig{}
@@ -139,6 +143,7 @@ func settle(ha *sim.FakeHAProxy) {
 
 func runCase(v *sim.Verdict, ha *sim.FakeHAProxy, rp replay) {
 	v.Eval(1)
+	caseTag = fmt.Sprintf("c%d", rp.Case)
 	clk := sim.NewVClock(t0)
 	sim.UseClock(clk)
 	ha.FailWith(0)
